@@ -470,3 +470,29 @@ func DeriveKey(h crypto.Hash, kEncoded, exchangeHash, sessionID []byte, x byte, 
 	}
 	return out[:n]
 }
+
+// ComputeMAC returns MAC(key, seq || parts...) truncated as the MAC name says. It lets a
+// test build packets whose MAC is valid over deliberately wrong or unusual inputs.
+func (c *Codec) ComputeMAC(seq uint32, parts ...[]byte) []byte {
+	if !c.HasMAC {
+		return nil
+	}
+	return c.mac(seq, parts...)
+}
+
+// EncryptRaw encrypts pt with the running cipher state (key stream position or CBC
+// chaining value) without any framing. For CBC len(pt) must be whole blocks.
+func (c *Codec) EncryptRaw(pt []byte) ([]byte, error) {
+	switch c.Cipher.Kind {
+	case KindNone, KindStream:
+		out := make([]byte, len(pt))
+		c.stream.xor(out, pt)
+		return out, nil
+	case KindCBC:
+		if len(pt)%c.Cipher.Block != 0 {
+			return nil, errors.New("sshpkt: not whole blocks")
+		}
+		return c.cbc.encrypt(pt), nil
+	}
+	return nil, errors.New("sshpkt: EncryptRaw is for stream and CBC ciphers")
+}
